@@ -150,9 +150,10 @@ def cur_eq(s1, s2, ids):
     return all([eq(s1.get_current(i), s2.get_current(i)) and eq(s1.get_voltage(i), s2.get_voltage(i)) for i in ids])
 
 
-def shorts_case(name, build, surviving_nodes, surviving_ids, keep_ids=(), drop_for_reference=()):
+def shorts_case(name, build, surviving_nodes, surviving_ids, keep_ids=(), drop_for_reference=(), bridged=()):
     """drop_for_reference: branches left out of the network whose solution serves as the reference (parallel shorts form a
-    loop of ideal sources, for which the circuit equations have no unique solution)."""
+    loop of ideal sources, for which the circuit equations have no unique solution).  bridged: elements in parallel to a removed short;
+    they carry no voltage and disappear with the contraction (a self-loop is not a branch of the contracted network)."""
     @contract('CircuitCalculator.Network.transformers.remove_short_circuit_elements', props=['C16'], name='shorts_' + name,
               bounded='topology ' + name + ' (contracts/net_ops_bounded.py), element values symbolic')
     class _c:
@@ -173,7 +174,7 @@ def shorts_case(name, build, surviving_nodes, surviving_ids, keep_ids=(), drop_f
 
         def ensures(result, net):
             out, s_in, s_out, before = result
-            removable = [b.id for b in net.branches if elm.is_short_circuit(b.element) and b.id not in keep_ids]
+            removable = [b.id for b in net.branches if elm.is_short_circuit(b.element) and b.id not in keep_ids] + list(bridged)
             return {
                 'no removable short circuit survives': not any([b.id in removable for b in out.branches]),
                 'exactly the other branches survive, in order': [b.id for b in out.branches] == [b.id for b in net.branches if b.id not in removable],
@@ -202,6 +203,9 @@ shorts_case('star', lambda g: Network([_src(g), Branch('a', 'b', elm.impedance('
 shorts_case('parallel_and_to_reference', lambda g: Network([_src(g), Branch('a', 'b', elm.impedance('Z0', g.complex('Z0'))), Branch('b', 'c', elm.short_circuit('S1')),
                                                             Branch('c', 'b', elm.short_circuit('S2')), Branch('c', 'd', elm.impedance('Z1', g.complex('Z1'))),
                                                             Branch('0', 'd', elm.short_circuit('S3'))], '0'), ['0', 'a'], ['Vs', 'Z0', 'Z1'], drop_for_reference=('S2',))
+shorts_case('element_parallel_to_a_short', lambda g: Network([_src(g), Branch('a', 'b', elm.impedance('Z0', g.complex('Z0'))), Branch('b', 'c', elm.short_circuit('S1')),
+                                                             Branch('c', 'b', elm.impedance('Zp', g.complex('Zp'))), Branch('c', '0', elm.impedance('Z1', g.complex('Z1')))], '0'),
+            ['0', 'a'], ['Vs', 'Z0', 'Z1'], bridged=('Zp',))
 shorts_case('kept_short', lambda g: Network([_src(g), Branch('a', 'b', elm.short_circuit('S1')), Branch('b', 'c', elm.short_circuit('K')),
                                              Branch('c', '0', elm.impedance('Z1', g.complex('Z1')))], '0'), ['0', 'c'], ['Vs', 'Z1', 'K'], keep_ids=('K',))
 
